@@ -49,6 +49,7 @@ struct Op {
   // text
   std::vector<std::string> lines;
   bool final_nl = true;
+  int sep = 0;  // line end used when joining the lines: 0 LF, 1 CR LF, 2 lone CR (the parser accepts all three)
   std::string path;
   bool alias = false;       // use the deprecated alias of the entry point
   bool fresh_twin = false;  // C15: repeat this call on a fresh instance brought to the same settings
